@@ -160,3 +160,35 @@ SPECS["C03"] = _rec(
      "every read-back is compared with the concatenation. Sampling, not proof."),
     "working file system; reads through a second handle while a writer is open are generated but not judged (stdio "
     "buffering makes them unspecified); raw Recfile files carry no dtype, so incompatible appends are only judged on sfiles")
+
+SPECS["C19"] = {
+    "parts": [{"engine": "rngsim", "mode": "", "quick": 40000, "thorough": 3000000}],
+    "cap_quick": 150, "cap_thorough": 3000,
+    "rule": ("one run = 1-3 requests (spherical cap, lon/lat box, tabulated/functional sampler, Cholesky sampler, index "
+             "selection) served by a simulator-owned random source that records every deviate and, with a per-request "
+             "rate, forces legal edge deviates (0, 2^-53, 1-2^-53, quarters, repeated values, exact cumulative-table "
+             "values); numpy's global generator is poisoned and must be found untouched; real RandomState/default_rng "
+             "with equal seeds serve as control group. Non-trivial = at least one forced deviate or special path "
+             "(forced rotation, zero-width box) was in play; distinct = distinct event-log digests among those"),
+    "state_measure": ("state = (request kind, generator flavour, option class, edge deviates on/off); transitions = "
+                      "distinct (state, request class) pairs (radius class, polar centre, zero width, ...)"),
+    "real": ["esutil.coords.randsphere/randcap/rotate", "esutil.random.Generator/CholeskySampler/cholesky_sample/random_indices",
+             "esutil.stat.interplin", "scipy.integrate.cumulative_trapezoid", "numpy.linalg.cholesky"],
+    "stub": ["the random source (SimRNG, legacy and new-style duck types): every deviate is drawn, recorded and sometimes "
+             "forced to an edge by the simulator"],
+    "expect_reach": ["edge_value", "repeated_value", "target_value", "forced_rotation_path", "zero_width_box"],
+    "assumptions": ["separations are judged with an atan2(|a x b|, a.b) reference in extended precision; 'inside' means "
+                    "within 1e-9 deg plus the 1/cos(dec) conditioning of a latitude next to a pole",
+                    "the accept/reject ('cut') sampler method is outside the statement and not exercised"],
+    "manifest": {
+        "design_ref": "3.5",
+        "level_text": ("seeded search over requests x deviate sequences: the random source is owned by the simulator, so "
+                       "region membership, returned radii, the deviate-to-value map of the samplers and mean + L z are "
+                       "recomputed from the recorded deviates, including forced edge deviates a real generator returns "
+                       "once in 2^53 draws. Sampling, not proof."),
+        "level_note": ("trusts the extended-precision separation formula, numpy.interp and an own Cholesky factorisation; "
+                       "one open known finding (positions within 2e-3 deg of a cap centre) is reported, not judged"),
+        "technique": ("deterministic simulation: the random source is replaced by a seeded, recording, edge-forcing "
+                      "stub; oracles recomputed from the recorded deviates"),
+    },
+}
